@@ -320,6 +320,18 @@ func (vs *ValueSet) TypedSubtype(t reflect.Type, st string) *Value {
 	return nil
 }
 
+// typedValue returns the type-only value with exactly this type and subtype.
+// If there is none, the type-only value recorded for the type is returned.
+func (vs *ValueSet) typedValue(t reflect.Type, st string) *Value {
+	for _, v := range vs.values {
+		if v.Kind() == ValueTyped && v.Type == t && v.Subtype == st {
+			return v
+		}
+	}
+
+	return vs.typedValues[t]
+}
+
 // Signature returns the type signature that this ValueSet will map to/from.
 // This is used for making dynamic types with reflect.FuncOf to take or return
 // this valueset.
